@@ -42,6 +42,9 @@ func (r *Request) readResp(read io.Reader) (protocol.Message, error) {
 		return nil, err
 	}
 	respLen := int32(binary.BigEndian.Uint32(lenBuf[:]))
+	if respLen < 0 {
+		return nil, protocol.Errorf("invalid SASL authentication response length: %d", respLen)
+	}
 	data := make([]byte, respLen)
 
 	if _, err := io.ReadFull(read, data[:]); err != nil {
